@@ -91,6 +91,7 @@ def stepD (st : DState) (op : String) (args : List String) : Except String (DSta
   | .manager strategy lens rr =>
     match op, args with
     | "setlen", [i, n] => .ok (.manager strategy (lens.set (natOf i) (intOf n)) rr, "u", "-", false)
+    | "register", [n] => .ok (.manager strategy (Manager.register lens (intOf n)) rr, "u", "-", true)
     | "next", _ =>
       let (r, rr') := Manager.next strategy lens rr
       let tot := Manager.total lens
@@ -136,6 +137,33 @@ def stepD (st : DState) (op : String) (args : List String) : Except String (DSta
     | _, _ => .error s!"unknown jobcfg op {op}"
   | .none => .error "D line before DC"
 
+/-- does the implementation's answer to `next` violate the strategy's specification in the state the
+    model is in? (the model's own answer always satisfies it: Proofs/Manager) -/
+def managerSpecViol (strategy : Nat) (lens : List Int) (rr : Nat) (out : String) : Option String :=
+  let body := (out.drop 2).toString
+  let i : Int := intOf ((body.splitOn ",").headD "0")
+  let n := lens.length
+  let nonEmpty := (List.range n).filter (fun j => lens.getD j 0 > 0)
+  if strategy > 2 then none else
+  if i < 0 then
+    if nonEmpty.isEmpty then none else some s!"no queue selected (code {i}) although queues {nonEmpty} are non-empty (lengths {lens})"
+  else
+    let iu := i.toNat
+    if lens.getD iu 0 ≤ 0 then some s!"queue {iu} selected although it is empty (lengths {lens})"
+    else if strategy == 0 then
+      -- the next non-empty queue in binding order, cyclically from the cursor
+      let order := (List.range n).map (fun k => (rr + k) % n)
+      match order.find? (fun j => lens.getD j 0 > 0) with
+      | some j => if j == iu then none else some s!"RoundRobin selected queue {iu}; the next non-empty queue in binding order after the previous selection is {j} (lengths {lens}, cursor {rr})"
+      | none => none
+    else if strategy == 1 then
+      let mx := lens.foldl max 0
+      if lens.getD iu 0 == mx then none else some s!"MaxLen selected queue {iu} of length {lens.getD iu 0}; the longest has {mx} (lengths {lens})"
+    else
+      let pos := lens.filter (· > 0)
+      let mn := pos.foldl min (pos.headD 0)
+      if lens.getD iu 0 == mn then none else some s!"MinLen selected queue {iu} of length {lens.getD iu 0}; the shortest non-empty has {mn} (lengths {lens})"
+
 def endCase (a : DAcc) : DAcc :=
   if a.case_.isEmpty then a else
   { a with cases := a.cases + 1, nontrivial := a.nontrivial + (if a.curNontrivial then 1 else 0),
@@ -163,15 +191,25 @@ partial def diffLoop (h : IO.FS.Stream) (a : DAcc) : IO DAcc := do
     let after := (rest.dropWhile (· != "=>")).drop 1
     let out := after.headD ""
     let shape := (after.dropWhile (· != "#")).drop 1 |>.headD "-"
+    let a0st := a.st
     match stepD a.st op args with
     | .error m =>
+      if a0st matches .none then diffLoop h { a with ops := a.ops + 1 } else
       IO.println s!"DIFFBAD {c} {op}: {m}"
       diffLoop h { a with ops := a.ops + 1, bad := a.bad + 1 }
     | .ok (st', mout, mshape, nt) =>
       let a := { a with st := st', ops := a.ops + 1, curNontrivial := a.curNontrivial || nt, curHash := mixHash a.curHash (hash (op :: args)) }
       if mout != out || mshape != shape then
         IO.println s!"DIFFBAD {c} op#{a.ops} {op} {" ".intercalate args}: implementation {out} # {shape}; model {mout} # {mshape}"
-        diffLoop h { a with bad := a.bad + 1 }
+        -- is the implementation's answer itself against the specification? (first disagreement of a case only:
+        -- afterwards model and implementation are in different states)
+        match a0st, op with
+        | .manager strategy lens rr, "next" =>
+          match managerSpecViol strategy lens rr out with
+          | some m => IO.println s!"DIFFVIOL {c} {m}"
+          | none => pure ()
+        | _, _ => pure ()
+        diffLoop h { a with bad := a.bad + 1, st := .none }
       else diffLoop h a
   | _ => diffLoop h a
 
